@@ -35,9 +35,9 @@ SCOPE = ('functional_step / functional_observation / every local reward and term
 BOUNDS = {
     'quick': dict(step='every built-in transition function and shipped chain, shapes 1x1..2x2, 1x3, 3x1, 33-object alphabet incl. nested boxes, any held item',
                   observation='4 observation functions, worlds 2x2, views 2x3 / 3x3, 6-object alphabet', rewards='7 local rewards, 4 terminations on shapes <=2x2',
-                  copy='shapes 1x1, 1x2, 2x2 over a 9-object alphabet with Box(Box(Floor)), Box(Key), doors of 3 statuses; held item of the same alphabet',
+                  copy='shapes 1x1, 1x2 over a 9-object alphabet (2x2: 5 objects) with Box(Box(Floor)), Box(Key), doors of 3 statuses; held item of the same alphabet',
                   history='question = getting_closer_shortest_path / raytracing on 3x3; intervening menu: 0..12 other layouts (>= 11 evict the cache), same layout with '
-                          'another source, other ray origins and areas; symbolic choice of the sequence (length <= 3 from the menu, plus the eviction block)'),
+                          'another source, other ray origins and areas; symbolic choice of the sequence (length <= 2 from the menu; the eviction block asks 12 further layouts)'),
     'thorough': dict(step='shapes up to 3x3, 41-object alphabet', observation='worlds up to 2x3', rewards='shapes <=3x3', copy='plus 2x3', history='sequence length <= 4'),
 }
 OUTSIDE = ('aliasing among cells the path never read rests on the LazyRows copy contract (pickle of plain lists is a deep copy): concrete Python, not a solver verdict; '
@@ -146,9 +146,13 @@ COPY9 = [e for e in SIGMA_2C if e[0] in ('Floor', 'Wall', 'Door(OPEN,YELLOW)', '
                                         'Box(Key(YELLOW))', 'Box(Box(Floor))', 'Telepod(NONE)')]
 
 
+COPY5 = [e for e in COPY9 if e[0] in ('Floor', 'Door(LOCKED,YELLOW)', 'Key(YELLOW)', 'Box(Key(YELLOW))', 'Box(Box(Floor))')]
+
+
 def mk_copy(H, W):
     def h(sx):
-        state, world = lazy_state(sx, H, W, COPY9, held_sigma=COPY9)
+        sg = COPY9 if H * W <= 2 else COPY5
+        state, world = lazy_state(sx, H, W, sg, held_sigma=sg, orientations=[Orientation.F, Orientation.L])
         cp = fast_copy(state)
         sx.cover('copy')
         sx.check(cp is not state, 'copy-is-a-new-object')
@@ -197,7 +201,7 @@ def h_history_dijkstra(sx):
     RF.dijkstra.cache_clear()
     first = q(s0, a, s1)
     # intervening calls: a symbolic sequence from the menu
-    n = int(sx.int('n', 0, 3))
+    n = int(sx.int('n', 0, 2))
     for i in range(n):
         kind = sx.choice(f'k{i}', ['other-source', 'other-layout', 'evict', 'rays'])
         if kind == 'other-source':  # same layout, exit elsewhere (same walls => a cache keyed too coarsely collides)
@@ -240,7 +244,7 @@ def h_history_rays(sx):
     RT.cached_compute_rays_fancy.cache_clear()
     first = RT.cached_compute_rays_fancy(Position(oy, ox), area)
     snapshot = [[(p.y, p.x) for p in ray] for ray in first]
-    n = int(sx.int('n', 0, 3))
+    n = int(sx.int('n', 0, 2))
     for i in range(n):
         kind = sx.choice(f'k{i}', ['other-origin', 'other-area', 'observe'])
         if kind == 'other-origin':
@@ -249,6 +253,10 @@ def h_history_rays(sx):
             RT.cached_compute_rays_fancy(Position(0, 0), Area((0, int(sx.int(f'h{i}', 0, 3))), (0, 2)))
         else:
             toks = make_world(sx, 3, 3, prefix=f'w{i}_')
+            for r in toks:
+                for t in r:
+                    t.force(False)
+            toks[1][1].force(True)
             observe('raytracing', toks, (oy, ox, Orientation.F), Area((-oy, 2 - oy), (-ox, 2 - ox)))
     again = RT.cached_compute_rays_fancy(Position(oy, ox), area)
     fresh = RT.compute_rays_fancy(Position(oy, ox), area)
@@ -271,7 +279,7 @@ def obligations(tier):
             obs.append(Obligation(f'step-{fname}-{H}x{W}', mk_step(fname, H, W, s), dict(function=fname, H=H, W=W, alphabet=len(s))))
     for fname in ('fully_transparent', 'partially_occluded', 'raytracing', 'stochastic_raytracing'):
         for (H, W) in ([(2, 2)] if q else [(2, 2), (2, 3)]):
-            for area in ([Area((-1, 0), (-1, 1))] if fname == 'stochastic_raytracing' else [Area((-1, 0), (-1, 1)), Area((-2, 0), (-1, 1))]):
+            for area in ([Area((0, 0), (-1, 1))] if fname == 'stochastic_raytracing' else [Area((-1, 0), (-1, 1)), Area((-2, 0), (-1, 1))]):
                 obs.append(Obligation(f'observation-{fname}-{H}x{W}-view{area.height}x{area.width}', mk_observation(fname, H, W, area),
                                       dict(function=fname, H=H, W=W, view=[area.height, area.width])))
     small = [e for e in sigma if e[0] in ('Floor', 'Wall', 'Exit(NONE)', 'Key(YELLOW)', 'MovingObstacle', 'Door(OPEN,YELLOW)', 'Door(LOCKED,YELLOW)', 'Telepod(YELLOW)', 'Box(Floor)')]
